@@ -65,7 +65,7 @@ type ContractSet struct {
 	Files  []string
 }
 
-var hdrRe = regexp.MustCompile(`^func\s+(?:\(\s*\w*\s*\*?\s*(\w+)(?:\[[^\]]*\])?\s*\)\s*)?([\w$]+)`)
+var hdrRe = regexp.MustCompile(`^func\s+(?:\(\s*\w*\s*\*?\s*(\w+)(?:\[[^\]]*\])?\s*\)\s*)?([\w$#]+)`)
 
 type pending struct {
 	kind string // requires ensures assigns inv dec pred
